@@ -48,7 +48,19 @@ def arbitrary_inputs(rng, valid_docs):
              "{ a { " * 300 + "b" + " } }" * 300, "query Q { a } query Q { a }", "{ a } { b }",
              "fragment F on T { a }", "é", "{ é }", "{ a(x: 1e999) }", "{ __typename }", "\ufeff{ __typename }",
              "{ a(x: \"\\u00e9\") }", "query ($v: Int = 1 { a }", "subscription { a }", "mutation { a }",
-             "{ ...F }", "{ a @skip }", "{ a @skip(if: 1) }", "{ a(x: $nope) }", "{\n\n  a(\n x: [1,\n\n 2 }"]
+             "{ ...F }", "{ a @skip }", "{ a @skip(if: 1) }", "{ a(x: $nope) }", "{\n\n  a(\n x: [1,\n\n 2 }",
+             # bytes that are NOT valid UTF-8 where the lexer tolerates them (string literal, comment), followed on the
+             # same line by something that fails: the reported column must still lie inside that line
+             b'{ __typename @include(if: "\xff\xfe\xfd\xfc\xfb\xfa") zzUnknownField }',
+             b'{ __typename @include(if: "' + b"\xff\xfe\xfd\xfc" * 6 + b'") zzUnknownField }',
+             b'{ a: __typename(x: "' + b"\xfe" * 30 + b'") zzUnknownField }',
+             b'{\n  a: __typename(x: "' + b"\xc3\x28\xa0\xa1" * 8 + b'") zzUnknownField\n}',
+             b'{ __typename # ' + b"\xff" * 40 + b'\n zzUnknownField }',
+             b'{ a: __typename(x: "\xff\xfe") zzUnknownField zzOther }',
+             b'{\n  __typename @skip(if: "\xc3\x28\xa0\xa1\xff\xfe") zzUnknownField\n}',
+             b'# \xff\xfe\xfd\n{ zzUnknownField }',
+             b'{ __typename # \xff\xfe\xfd\xfc\n zzUnknownField }',
+             '{ __typename @include(if: "\u00e9\u00e9\u00e9\U0001F600") zzUnknownField }']
     out = list(fixed)
     # very deep nesting (selection sets, list / object literals, unbalanced): whatever the parser, the transformer
     # or a validator does with it -- RecursionError included -- execute must still answer with a response
